@@ -31,3 +31,5 @@ pub mod h_recursion;
 pub mod h_string_tokens;
 #[path = "h_string_kernels.rs"]
 pub mod h_string_kernels;
+// h_string_shapes.rs (ml-basic / ml-literal whole tokens with ONE symbolic content byte) is kept
+// for reference but not compiled: none of its 8 harnesses finishes within 25 min
